@@ -114,6 +114,9 @@ class C01(Check):
                 {**base, 'text': t([{'jsonrpc': '2.0', 'id': 1, 'method': 'js.tag', 'params': [5]}, {'jsonrpc': '2.0', 'id': 2, 'method': 'js.tag', 'params': {'t': ['x']}},
                                     {'jsonrpc': '2.0', 'id': 3, 'method': 'js.tag', 'params': ['ok', 1]}, {'jsonrpc': '2.0', 'method': 'js.tag', 'params': {'t': None}}])},
                 {**base, 'text': t({'jsonrpc': '2.0', 'id': 1, 'method': 'js.tag', 'params': {'t': {'deep': [1, 2]}}})},
+                {**base, 'text': t([{'jsonrpc': '2.0', 'id': 1, 'method': 'noargs', 'meta': {'a': 1}, 'auth': 'x'},
+                                    {'jsonrpc': '2.0', 'method': 'noargs', 'meta': 1, 'auth': None, 'trace': [1]}])},
+                {**base, 'logging': 'debug', 'text': t({'jsonrpc': '2.0', 'id': 1, 'method': 'noargs', 'meta': 1, 'auth': 2})},
                 {**base, 'text': {'raw': ''}},
                 {**base, 'text': {'raw': '[]'}},
                 {**base, 'text': t([1])},
